@@ -5,7 +5,7 @@
    hold for every such C, ceq, rnd.  [reloaded m] is the mesh a reader builds from what a writer stored:
    geometry = the rounded coordinates in vertices() order, vertices() = all of them in order,
    triangles = the mesh-local index triples of m, in the same order and with the same winding. *)
-From OM Require Import Base.Lists Geom.MeshCodec Geom.MeshCodecFast Geom.MeshCodecProofs Geom.MeshCodecBytes Geom.MeshFillProofs.
+From OM Require Import Base.Lists Geom.MeshCodec Geom.MeshFormat Geom.MeshCodecFast Geom.MeshCodecProofs Geom.MeshCodecBytes Geom.MeshFillProofs.
 From Coq Require Import NArith.
 
 Section C15.
@@ -161,6 +161,36 @@ Theorem c15_merge_shares_coincident_vertices : forall m1 m2 r : mesh, merge_raw 
   (forall i, In i (mv r) -> i < length (gv r)).
 Proof. exact (merge_raw_spec C ceq rnd c0). Qed.
 
+(* ---- the writers number vertices by their position in vertices(), never by Vertex::index() *)
+Theorem c15_writers_ignore_vertex_index : forall (m : mesh) (ix ix' : nat -> N),
+  isave_tri C rnd c0 {| im_mesh := m; im_index := ix |} = isave_tri C rnd c0 {| im_mesh := m; im_index := ix' |} /\
+  isave_off C rnd c0 {| im_mesh := m; im_index := ix |} = isave_off C rnd c0 {| im_mesh := m; im_index := ix' |} /\
+  isave_bnd C rnd c0 {| im_mesh := m; im_index := ix |} = isave_bnd C rnd c0 {| im_mesh := m; im_index := ix' |} /\
+  isave_mesh C rnd c0 {| im_mesh := m; im_index := ix |} = isave_mesh C rnd c0 {| im_mesh := m; im_index := ix' |} /\
+  isave_vtk C rnd c0 {| im_mesh := m; im_index := ix |} = isave_vtk C rnd c0 {| im_mesh := m; im_index := ix' |}.
+Proof. exact (writers_ignore_index C rnd c0). Qed.
+
+(* ... so a mesh that shares its geometry with other meshes (vertices() = positions 42.. of the geometry) is written
+   with indices 0..nv-1: every index written is below nv and names, in vertices(), the vertex the triangle uses *)
+Theorem c15_written_indices_are_positions : forall (m : mesh) lt, wf_mesh C m -> local_triangles m = Some lt ->
+  length lt = nt m /\
+  forall k, k < nt m -> forall s, s < 3 ->
+    nth s (tverts (nth k lt (0, 0, 0))) 0 < nv m /\
+    nth (nth s (tverts (nth k lt (0, 0, 0))) 0) (mv m) 0 = nth s (tverts (nth k (tr m) (0, 0, 0))) 0.
+Proof. exact (written_indices_are_positions C ceq rnd c0). Qed.
+
+(* ---- format selection by file name (MeshIO::create) *)
+Theorem c15_format_by_suffix : forall pre stem ext : list nat,
+  (pre = [] \/ exists d, pre = d ++ [47]) -> stem <> [] -> ~ In 47 stem -> ~ In 47 ext -> ~ In 46 ext ->
+  format_of (pre ++ stem ++ 46 :: ext) = registry (map lower ext).
+Proof. exact format_of_name. Qed.
+
+Theorem c15_format_case_insensitive : forall pre stem ext ext' : list nat,
+  (pre = [] \/ exists d, pre = d ++ [47]) -> stem <> [] -> ~ In 47 stem ->
+  ~ In 47 ext -> ~ In 46 ext -> ~ In 47 ext' -> ~ In 46 ext' -> map lower ext = map lower ext' ->
+  format_of (pre ++ stem ++ 46 :: ext) = format_of (pre ++ stem ++ 46 :: ext').
+Proof. exact format_case_insensitive. Qed.
+
 (* ---- VTK writer *)
 Theorem c15_vtk_writer_token_structure : forall m : mesh, wf_mesh C m ->
   save_vtk C rnd c0 m =
@@ -204,6 +234,10 @@ Print Assumptions c15_add_vertices_any_points.
 Print Assumptions c15_load_merges_repeated_points.
 Print Assumptions c15_merge_keeps_triangles.
 Print Assumptions c15_merge_shares_coincident_vertices.
+Print Assumptions c15_writers_ignore_vertex_index.
+Print Assumptions c15_written_indices_are_positions.
+Print Assumptions c15_format_by_suffix.
+Print Assumptions c15_format_case_insensitive.
 Print Assumptions c15_vtk_writer_token_structure.
 Print Assumptions c15_vtk_writer_line_count.
 
@@ -255,3 +289,11 @@ Example c15_flood_fill_hypotheses_satisfiable :
   (exists sg, orientation_of ts sg /\ consistent_all sg) /\
   (forall j, j < length ts -> reach ts j) /\ hco_fast N.of_nat ts = false.
 Proof. exact square_fill_hyps. Qed.
+
+(* HEAD.TRI, x.Mesh, d.ir/a.b.BND are tri, mesh, bnd; d.tri/x, .tri, a.tri.bak have no known suffix *)
+Example c15_format_examples :
+  format_of [72; 69; 65; 68; 46; 84; 82; 73] = Some 0 /\ format_of [120; 46; 77; 101; 115; 104] = Some 3 /\
+  format_of [100; 46; 105; 114; 47; 97; 46; 98; 46; 66; 78; 68] = Some 2 /\
+  format_of [100; 46; 116; 114; 105; 47; 120] = None /\ format_of [46; 116; 114; 105] = None /\
+  format_of [97; 46; 116; 114; 105; 46; 98; 97; 107] = None.
+Proof. exact format_examples. Qed.
